@@ -233,14 +233,14 @@ CHECKS = {
         "level_note": "Asynchronous / queueing rows (Delay, ObserveOn, ToChannel, timers) are cut in the bubble-based checks C16/C17.",
     },
     "C03": {
-        "run": "^TestC03_",
+        "run": "^(TestC03_|FuzzC03_)",
         "rule": ("(a) stateful: rapid action sequences over {Add (optionally panicking), AddUnsubscribable, Add(nil), Unsubscribe, Complete/Error, Wait} on a Subscription / "
                  "Subscriber against a set-of-pending-teardowns model; (a') 2-5 goroutines racing Unsubscribe/Complete/Error/Add/Next on one subscriber, hundreds of "
                  "repetitions each; (b) every catalogue row and random chains over a manually driven source, Unsubscribe at every cut position from the harness, from "
                  "inside Next and from other goroutines; rows that wait inside Subscribe over finite cold sources. Non-trivial = at least one teardown and an ending that "
                  "is a cut or a race (not plain run-to-completion); distinct by descriptor hash."),
         "quick": {"rapid": 300, "timeout": 300, "shards": 4},
-        "thorough": {"rapid": 4000, "timeout": 3000, "shards": 16},
+        "thorough": {"rapid": 4000, "timeout": 3000, "shards": 16, "fuzz": {"seconds": 30, "targets": ["FuzzC03_ReleaseChainsRandom"]}},
         "assumptions": COMMON_ASSUMPTIONS,
         "technique": "stateful property-based testing (rapid state machine) + race repetition + enumerated cut positions with instrumented sources",
         "level_text": ("Exploration. Teardown accounting is checked at three levels: the Subscription/Subscriber API against a sequential model (every teardown exactly once, "
@@ -251,13 +251,13 @@ CHECKS = {
         "level_note": ("Race part is statistical. Goroutine-leak freedom of asynchronous rows is asserted in the bubble-based checks (C14/C16/C17), not here."),
     },
     "C08": {
-        "run": "^TestC08_",
+        "run": "^(TestC08_|FuzzC08_)",
         "rule": ("sync clause: cases = (synchronous row or chain, params, script) driven one notification at a time through a manual source from the harness goroutine, "
                  "checked after every call; non-trivial = script with >= 2 values. Hand-off clause: cases = (ObserveOn | SubscribeOn | ToChannel, capacity, input "
                  "length, ending, per-item consumer delays); non-trivial = length > capacity and a consumer that stalls at least once. Distinct by descriptor hash. "
                  "'bound-reached' in classes counts the hand-off cases where the producer actually got capacity+1 ahead (the bound is exercised, not vacuous)."),
         "quick": {"rapid": 200, "timeout": 300, "shards": 4},
-        "thorough": {"rapid": 3000, "timeout": 3000, "shards": 16},
+        "thorough": {"rapid": 3000, "timeout": 3000, "shards": 16, "fuzz": {"seconds": 30, "targets": ["FuzzC08_SyncChainsRandom"]}},
         "assumptions": COMMON_ASSUMPTIONS + ["hand-off bounds are upper bounds sampled in the producer and the consumer; machine load can only make them easier to satisfy"],
         "technique": "property-based testing: step-wise differential against an incremental reference model (count, goroutine id, stamp window) + generated consumer-stall patterns with an upper-bound invariant",
         "level_text": ("Exploration. Sync clause: for every synchronous catalogue row (all params, scripts of length <= 4/5) and rapid chains, after each individual "
@@ -269,14 +269,14 @@ CHECKS = {
         "level_note": "The hand-off part runs in real time with real goroutines; only upper bounds and order/loss relations are asserted, so timing cannot raise an alarm.",
     },
     "C07": {
-        "run": "^TestC07_",
+        "run": "^(TestC07_|FuzzC07_)",
         "level": "fault_enumeration",
         "rule": ("cases = (row or chain, params, variant, legal script, fault plan) where a fault plan injects, at one (enumerated) or two (rapid) user-callback positions "
                  "- operator callbacks, the source's subscribe function, the final observer's Next/Error/Complete - at a chosen invocation index, a panic(error), "
                  "panic(string), panic(non-error value) or a returned error. Invocation indices come from a fault-free dry run, so every injected fault is reachable. "
                  "Non-trivial = invocation index >= 1, or the position is the subscribe function or an observer callback, or a chain/pair; distinct by descriptor hash."),
         "quick": {"rapid": 400, "timeout": 300, "shards": 4},
-        "thorough": {"rapid": 6000, "timeout": 3000, "shards": 16},
+        "thorough": {"rapid": 6000, "timeout": 3000, "shards": 16, "fuzz": {"seconds": 30, "targets": ["FuzzC07_FaultsInChainsRandom"]}},
         "assumptions": COMMON_ASSUMPTIONS,
         "technique": "fault injection by enumeration (position x invocation index x kind) + rapid fault pairs in chains, judged by a fault-aware reference model",
         "level_text": ("Fault enumeration. For every catalogue row with user callbacks (and the source / observer callback positions) every reachable invocation index is "
@@ -288,12 +288,12 @@ CHECKS = {
                        "Teardown panics belong to C03; faults in asynchronous rows to C05/C16 harnesses."),
     },
     "C09": {
-        "run": "^TestC09_",
+        "run": "^(TestC09_|FuzzC09_)",
         "rule": ("cases = (row or chain, params, variant, script 1..n with ending, upstream marker operator {none, ContextWithValue, ContextMap}, dynamic kind of the "
                  "subscription context {WithValue, WithCancel, WithDeadline, custom type}). Non-trivial = the case exercises a terminal path (error/complete ending) "
                  "or a row that stores items (SkipLast, TakeLast, Min/Max, Reduce) - not just pass-through Next; distinct by descriptor hash."),
         "quick": {"rapid": 400, "timeout": 300, "shards": 4},
-        "thorough": {"rapid": 6000, "timeout": 3000, "shards": 16},
+        "thorough": {"rapid": 6000, "timeout": 3000, "shards": 16, "fuzz": {"seconds": 30, "targets": ["FuzzC09_ChainsRandom"]}},
         "assumptions": COMMON_ASSUMPTIONS,
         "technique": "property-based testing: marker propagation invariants over enumerated rows and rapid chains (subscription marker, upstream marker, per-item provenance, non-nil)",
         "level_text": ("Exploration. Every catalogue row (all variants incl. the context-aware callbacks) and random chains are subscribed with a context carrying a marker; "
@@ -306,13 +306,13 @@ CHECKS = {
                        "(Take(0) ...), values a stage produces itself (StartWith prefixes, fallbacks). Hand-off/time rows (Delay, ObserveOn, Zip ...) are checked in C08/C16/C05 harnesses."),
     },
     "C12": {
-        "run": "^TestC12_",
+        "run": "^(TestC12_|FuzzC12_)",
         "rule": ("cases = (row or chain, params, variant, cold script(s), mode) with modes: 3 sequential subscriptions; 2 subscriptions alive together over a manually "
                  "driven source; 2-4 concurrent subscriptions; one operator value applied to 2-3 sources and subscribed in every listed order. Non-trivial = the "
                  "row/chain keeps per-subscription state (index, accumulator, buffer, seen-set, counter) or re-subscribes, or an operator value is applied to "
                  ">= 2 sources; distinct by descriptor hash."),
         "quick": {"rapid": 400, "timeout": 300, "shards": 4},
-        "thorough": {"rapid": 6000, "timeout": 3000, "shards": 16},
+        "thorough": {"rapid": 6000, "timeout": 3000, "shards": 16, "fuzz": {"seconds": 30, "targets": ["FuzzC12_Random"]}},
         "assumptions": COMMON_ASSUMPTIONS,
         "technique": "property-based testing: differential (n-th / concurrent / co-applied subscription vs first subscription of a fresh pipeline) + model-derived source-subscription counts",
         "level_text": ("Exploration. For every catalogue row (all variants, boundary parameters) and rapid-generated chains, over cold instrumented sources: the trace of "
@@ -341,13 +341,13 @@ CHECKS = {
                        "asynchronous / multi-source rows are covered by C02/C05, panicking callbacks by C07."),
     },
     "C04": {
-        "run": "^TestC04_",
+        "run": "^(TestC04_|FuzzC04_)",
         "rule": ("cases = (catalogue row, constructor variant, boundary parameters, input script, ending); enumerated exhaustively "
                  "inside the small scope stated in 'enumerated_scope', then drawn by rapid (longer scripts, wider values, random chains, "
                  "Pipe/PipeN/PipeOpN arities 1..25). A case is non-trivial when the input has >= 1 value, or it is a chain of >= 2 stages; "
                  "distinct = distinct (row/chain, variant, params, script) descriptor, counted by hash set."),
         "quick": {"rapid": 300, "timeout": 300, "shards": 4},
-        "thorough": {"rapid": 4000, "timeout": 3000, "shards": 16},
+        "thorough": {"rapid": 4000, "timeout": 3000, "shards": 16, "fuzz": {"seconds": 30, "targets": ["FuzzC04_ChainsRandom", "FuzzC04_LongScripts", "FuzzC04_MathTyped"]}},
         "assumptions": COMMON_ASSUMPTIONS,
         "technique": "property-based testing: bounded-exhaustive enumeration + rapid generation against a reference model; variant and composition differentials",
         "level_text": ("Exploration. Every catalogue row (about 65 behaviours, all their plain/I/WithContext/IWithContext/alias variants) is run on every value "
